@@ -20,20 +20,6 @@ Proof. induction a; intros; cbn; auto. Qed.
 Lemma last_stream_wakes : forall ws acc, last_stream (map EWake ws) acc = acc.
 Proof. induction ws; intros; cbn; auto. Qed.
 
-(* ---------------------------------------------------------------- monotone history *)
-
-Lemma step_mono : forall c s l s', step c s l = Some s' ->
-  (exists r, removed (gh s') = removed (gh s) ++ r) /\
-  (freq (gh s') = freq (gh s) \/
-   exists w n, freq (gh s') = freq (gh s) ++ [(w, n)] /\ ~ In w (map fst (freq (gh s)))).
-Proof.
-  intros c s l s' Hs.
-  step_inv Hs; simp_st; split;
-    try (exists []; now rewrite app_nil_r); try (eexists; reflexivity); auto;
-    right; do 2 eexists; split; eauto; bool_hyps;
-    match goal with H : negb (memN _ _) = true |- _ => apply negb_true_iff in H; apply memN_false in H; exact H end.
-Qed.
-
 Definition wakes_known (s : state) : Prop :=
   forall w, In (EWake w) (out (gh s)) -> In w (map fst (freq (gh s))).
 
